@@ -38,7 +38,9 @@ OptionsOK(e) ==
 \* the logged solution was divided by 2^(sb-sa); by NNLS!ScaleInvariant it must be the solution of the unscaled problem
 ExactInDomain(e) ==
     /\ e.solver \in Solvers
-    /\ e.sa \in MagSet /\ e.sb \in MagSet /\ e.dt = "float64"
+    /\ e.sa \in MagSet /\ e.sb \in MagSet
+    \* dtype of the normal equations handed to the solver: integer-typed UtU / UtM are unscaled (the data are integers)
+    /\ e.dt \in {"float64", "int64", "int32"} /\ (e.dt # "float64" => e.sa = 0 /\ e.sb = 0)
     /\ OptionsOK(e)
     /\ (e.ep > 0 => e.G \notin ExtraG2)
     /\ <<e.p1, e.p2, e.q>> \in Penalties
@@ -69,8 +71,10 @@ ExactVerdict(e) ==
 KktInDomain(e) ==
     /\ e.solver \in Solvers
     /\ OptionsOK(e) /\ e.ep = 0
-    /\ e.dt \in {"float64", "float32"}
-    /\ IF e.dt = "float32" THEN e.sa \in {-15, 0} /\ e.sb \in {-15, 0} ELSE e.sa \in MagSet /\ e.sb \in MagSet
+    /\ e.dt \in {"float64", "float32", "int64", "int32"}
+    /\ IF e.dt = "float32" THEN e.sa \in {-15, 0} /\ e.sb \in {-15, 0}
+       ELSE IF e.dt = "float64" THEN e.sa \in MagSet /\ e.sb \in MagSet
+       ELSE e.sa = 0 /\ e.sb = 0
     /\ e.n \in 4..8 /\ e.k \in 1..5
     /\ <<e.p1, e.p2, e.q>> \in Penalties
     /\ (e.solver \in {"active_set", "admm"} => e.p1 = 0 /\ e.p2 = 0)
